@@ -256,6 +256,11 @@ def check(ctx):
     ctx.count('accumulator::result definitions', nres, 2)
     _shared(ctx)
     counters_stay_integers(ctx, 'R7.counters_stay_integers')
+    fsn = []
+    for nm in ('hep::mc_result::value', 'hep::mc_result::variance', 'hep::mc_result::error', 'hep::accumulate',
+               'hep::accumulator::invoke', 'hep::accumulator::result'):
+        fsn += list(p.find(nm))
+    no_float_narrowing(ctx, 'R8.no_float_narrowing', fsn)
 
 
 def counters_converted_before_combined(ctx, rule, funcs):
@@ -280,6 +285,28 @@ def counters_converted_before_combined(ctx, rule, funcs):
                           {'abstract_counterexample': 'calls = 5e9: calls*(calls-1) mod 2^64 instead of 2.5e19'})
         else:
             ctx.holds(rule, fsite(f), 'every counter is converted to the numeric type before it is multiplied')
+
+
+def no_float_narrowing(ctx, rule, funcs):
+    """no value of the numeric type T passes through a narrower floating-point type (an unqualified
+    math call that resolves to the double overload for T = long double, a float temporary, ...):
+    the result then carries the error of the narrower type although every formula is right"""
+    p = ctx.prog
+    for f in funcs:
+        ctx.analysed(f)
+
+        def rn(f=f):
+            s, ex = summarise(p, f)
+            nar = [e for e, l in flat_effects(s.effects) if e['kind'] == 'fnarrow']
+            if nar:
+                e = nar[0]
+                ctx.violation(rule, '%s:%s' % (e['where'], f.name), 'a value of type %s is converted to %s%s: for this '
+                              'numeric type the result is computed with the precision / range of the narrower type'
+                              % (e['frm'], e['to'], ' implicitly' if e.get('implicit') else ''),
+                              {'value': T.pretty(e['operand'])[:200], 'numeric_type': p.numeric})
+            else:
+                ctx.holds(rule, fsite(f), 'no narrowing floating-point conversion of a computed value (T = %s)' % p.numeric)
+        ctx.guard(rule, fsite(f), rn)
 
 
 def counters_stay_integers(ctx, rule):
